@@ -449,6 +449,26 @@ fn exhaustive(ctx: &mut Ctx, shard: usize, nshards: usize) -> Verdict {
             }
         }
     }
+    // (c) long payloads: a peer may list any number of identifiers this endpoint does not know; what it does know still
+    // takes effect (sizes around 128 bytes = 8 entries in the longest form, and far beyond)
+    if shard == 0 {
+        for server in [true, false] {
+            for m in [0usize, 6, 7, 8, 9, 15, 16, 17, 40, 1000] {
+                for long_form in [false, true] {
+                    let mut p = Vec::new();
+                    p.extend(entry(0x6, 77, false));
+                    p.extend(entry(0x33, 1, false));
+                    for k in 0..m {
+                        p.extend(entry(0x21 + 0x1f * (1000 + k as u64), (1 << 40) + k as u64, long_form));
+                    }
+                    p.extend(entry(0x8, 1, false));
+                    check_payload(server, Some(&p), if m % 2 == 0 { Style::Eager } else { Style::Tiny }, &[], ctx)?;
+                    ctx.class("long_settings_payload");
+                }
+            }
+        }
+        ctx.subspace("three known entries around 0..1000 unknown ones in short and long varint forms (payloads of 6..16000 bytes), both roles", 40);
+    }
     let _ = count;
     if shard == 0 {
         let n = opts.len() as u64;
